@@ -425,6 +425,82 @@ void run_static(Ctx &c, StaticCase<K> &sc, char which, Extra &extra) {
         c.sample(J().num("n", n).num("segments", segs).num("height", idx->height()).num("queries", sc_cnt.queries));
 }
 
+/// Residue sweep: ~70 indexes over prefixes of ONE irregular array of 150k..450k keys, each prefix a few keys shorter than
+/// the previous one, queried at the top end of the key range. The number of segments (and with it the length of every
+/// succinct directory derived from it) changes by about one per step, so the sweep passes through all residues modulo 64,
+/// and often a multiple of 4096 - the places where block-wise directories have their last-block special cases.
+template<class K, class Idx, size_t Eps>
+void run_sweep(Ctx &c, char which) {
+    using D = UDom<K>;
+    Rng &r = c.rng;
+    const uint64_t R = D::R;
+    size_t n0 = 150000 + r.below(c.thorough() ? 600000 : 300000);
+    std::vector<K> master(n0);
+    {
+        uint64_t cur = r.below(1000);
+        const int maxsh = r.pick<int>({12, 20, 26});
+        for (auto &x : master) { x = D::to_key(std::min(cur, R)); cur = sat_add(cur, uint64_t(1) << r.below(uint64_t(maxsh) + 1), R); }
+    }
+    c.traits = "prefix_residue_sweep";
+    Hasher h; h.add(n0); h.add(r.s);
+    c.input_hash = h.h;
+    size_t len = n0;
+    std::vector<size_t> lens;
+    c.dumper = [&]() {
+        Spec s;
+        s.set_one("config", c.cfg.name); s.set_one("case", c.case_idx); s.set_one("note", "master array regenerated from seed");
+        s.set_vec("prefix_lengths", lens);
+        return s;
+    };
+    c.predump();
+    const int steps = c.thorough() ? 140 : 70;
+    uint64_t queries = 0, segs_total = 0, mod64 = 0;
+    set_threads(1);
+    for (int k = 0; k < steps && len > 1000; ++k) {
+        lens.push_back(len);
+        std::vector<K> keys(master.begin(), master.begin() + len);
+        std::unique_ptr<Idx> idx(new Idx(keys.begin(), keys.end()));
+        size_t segs = idx->segments_count();
+        segs_total += segs;
+        if (segs % 64 == 0) ++mod64;
+        std::vector<K> qs;
+        for (size_t i = len > 250 ? len - 250 : 0; i < len; ++i) {
+            qs.push_back(keys[i]);
+            if (keys[i] < key_maxvalid<K>()) qs.push_back(key_succ(keys[i]));
+            if (keys[i] > KT<K>::lowest()) qs.push_back(key_pred(keys[i]));
+        }
+        for (int i = 0; i < 30; ++i) qs.push_back(keys[r.below(len)]);
+        qs.push_back(key_maxvalid<K>());
+        qs.push_back(KT<K>::lowest());
+        if (keys.back() < key_maxvalid<K>()) qs.push_back(key_mid(keys.back(), key_maxvalid<K>()));
+        for (const K &q : qs) {
+            if (which == 'P' && !std::binary_search(keys.begin(), keys.end(), q)) continue;
+            auto res = idx->search(q);
+            ++queries;
+            size_t expect = 0;
+            const char *bad = nullptr;
+            if (which == 'P') bad = judge_search(keys, q, res, Eps, true, false, false, expect);
+            else if (which == 'L') bad = judge_search(keys, q, res, Eps, false, true, false, expect);
+            else if (which == 'B') bad = judge_search(keys, q, res, Eps, true, true, true, expect);
+            if (bad) {
+                c.violation(bad, J().num("q", q).num("lo", res.lo).num("hi", res.hi).num("pos", res.pos).num("expected_lower_bound", expect)
+                                     .num("n", len).num("eps", Eps).num("segments", segs).num("sweep_step", k));
+                break;
+            }
+        }
+        if (c.violations_in_case >= 3) break;
+        len -= 1 + r.below(9);
+    }
+    c.count("sweep_indexes_built", lens.size());
+    c.count("queries", queries);
+    c.count("segments", segs_total);
+    c.count("sweep_segment_counts_multiple_of_64", mod64);
+    c.count("family_prefix_residue_sweep");
+    c.maxc("max_n", n0);
+    c.nontrivial = true;
+    if (c.want_sample()) c.sample(J().num("first_length", n0).num("indexes", lens.size()).num("avg_segments", segs_total / std::max<size_t>(1, lens.size())));
+}
+
 // ---------------------------------------------------------------------------------------------- PGMIndex specifics
 /// C07: routing trace (hook H2) judged per query; C04(e)/C07: level-size recurrence and height.
 template<size_t EpsRec> struct PgmExtra : NoExtra {
@@ -563,9 +639,15 @@ template<size_t EpsRec> struct PgmExtra : NoExtra {
     }
 };
 
-template<class K, size_t Eps, size_t EpsRec, class Floating, int Mode> // Mode: 0 small, 1 chunked, 2 huge (> 2^24 keys)
+template<class K, size_t Eps, size_t EpsRec, class Floating, int Mode> // Mode: 0 small, 1 chunked, 2 huge (> 2^24 keys), 3 enum, 4 big, 5 sweep
 void pgm_case(Ctx &c) {
     using Idx = pgm::PGMIndex<K, Eps, EpsRec, Floating>;
+    if constexpr (Mode == 5 && std::is_integral_v<K>) {
+        if (!c.given) {
+            run_sweep<K, Idx, Eps>(c, c.prop("C01") ? 'P' : c.prop("C02") ? 'L' : 'N');
+            return;
+        }
+    }
     constexpr bool Chunked = Mode == 1;
     size_t big = c.thorough() ? (size_t(1) << 18) : (size_t(1) << 16);
     if (c.thorough() && c.case_idx % 16 == 15) big = size_t(1) << 20;
@@ -608,6 +690,9 @@ void pgm_case(Ctx &c) {
 #define VF_PGM_BIG(K, E, ER, F)                                                                                        \
     VF_REGISTER(std::string("pgm/") + ::vf::KT<K>::name() + ",e" #E ",er" #ER "," #F "#big",                          \
                 (&::vf::pgm_case<K, E, ER, F, 4>), 0.0041)
+#define VF_PGM_SWEEP(K, E, ER, F)                                                                                      \
+    VF_REGISTER(std::string("pgm/") + ::vf::KT<K>::name() + ",e" #E ",er" #ER "," #F "#sweep",                        \
+                (&::vf::pgm_case<K, E, ER, F, 5>), 0.0003)
 #define VF_PGM_HUGE(K, E, ER, F)                                                                                       \
     VF_REGISTER(std::string("pgm/") + ::vf::KT<K>::name() + ",e" #E ",er" #ER "," #F "#huge",                         \
                 (&::vf::pgm_case<K, E, ER, F, 2>), 0.0003)
